@@ -98,6 +98,22 @@ func (s *Session) RemoveParticipant(p *Participant) bool {
 	return s.ended
 }
 
+// Exclusive calls f, with the participants of the session, while nothing is
+// being relayed in the session. A state that f reads and hands to a participant
+// is not older than any message that participant has been relayed before, and
+// every later change is relayed to it afterwards. f must not relay anything nor
+// ask the session for its participants.
+func (s *Session) Exclusive(f func(participants []*Participant)) {
+	s.participantMutex.Lock()
+	defer s.participantMutex.Unlock()
+
+	participants := make([]*Participant, 0, len(s.participants))
+	for _, p := range s.participants {
+		participants = append(participants, p)
+	}
+	f(participants)
+}
+
 func (s *Session) GetParticipants() []*Participant {
 	s.participantMutex.RLock()
 	defer s.participantMutex.RUnlock()
